@@ -27,6 +27,8 @@ void symx_file_put(const char* name, const void* data, size_t n);   /* install a
 size_t symx_file_size(const char* name);                            /* (size_t)-1 if absent */
 size_t symx_file_get(const char* name, void* buf, size_t cap);
 void symx_interfere(int on);
+void symx_omp_threads(int n);      /* n >= 2: parallel regions run with n modelled workers; preemption at iteration boundaries and before accesses to
+                                     bytes on which two iterations conflict (found by a recording pass), at most one preemption per path */
 void symx_omp_permute(int on);    /* on: iterations of OpenMP dynamic-schedule loops (<= 3) are run in every order (fork) */        /* on: fread sees a stream position moved arbitrarily by "another thread" */
 /* lazy-initialisation races: record the stores an initialiser makes to globals, then restart from the state in which only the
  * first k of them are visible (another thread is k stores into the initialiser) */
